@@ -62,6 +62,18 @@ CHECKS = {
         note="Quick tier: 62 zones x transitions 1900-2040 (max 40 per zone) + oddest zones from the start of time + range-end windows; at_start_of_day not yet covered.",
         technique="TLA+ declarative-vs-algorithm model checked by TLC + TLC trace validation of map_local around every transition",
     ),
+    "C06": dict(
+        category="model_checking",
+        text=("TLC itself reads both real database files (as byte sequences) and parses them field by field with the NzdFile/NzdCodec "
+              "specification: string pool, every zone's precalculated periods and tail rules, version, alias map; the trace lists in file "
+              "order what the real package derived from each field and how each zone behaves through the public API; TLC checks ids, "
+              "names, transition instants, wall offsets and savings of every precalculated period against the bytes, tail intervals "
+              "against ZoneRules.tla (yearly rules evaluated by plain calendar arithmetic, model-checked separately), and the provider's "
+              "sorted id list, aliases, fixed-offset ids and self-validation."),
+        design_ref="DESIGN.md section 5 C06",
+        note="Quick tier compares the first 30 and last 12 tail intervals per zone and walks every 40th zone's tail to 9999; thorough compares all. CLDR windows mapping and zone locations fields are skipped by length only.",
+        technique="independent TLA+ decoder of the database bytes run by TLC + rule evaluation in TLA+, compared with API walks by trace validation",
+    ),
     "C14": dict(
         category="model_checking",
         text=("NzdCodec.tla specifies every documented encoding (varint, zig-zag, 4-way milliseconds with its canonical choice, "
